@@ -260,7 +260,7 @@ def check_optimiser(ctx: Ctx, workers: int, only: dict | None = None) -> None:
             raise MachineryError("BandwidthOpt.tla does not notice the seeded fault 'return the last candidate' (vacuous requirement)")
     # ---- real outputs -> TLC
     rng = random.Random(ctx.seed * 1000003 + 3232)
-    jobs = [gen_matrix(rng, i) for i in range(ctx.pick(200, 3000))]
+    jobs = [gen_matrix(rng, i) for i in range(ctx.pick(200, 2000))]
     nrec = 0
     for j in jobs:
         if j["integer"] and j["n"] <= 12 and j["dtype"] == "float64" and nrec < ctx.pick(40, 300):
